@@ -22,7 +22,9 @@ class Job:
         self.harness = harness       # harness(ctx)      (kind D/E)   or  callable() -> BResult (kind B)
         self.setup = setup           # () -> context manager installing shims / stubs / instrumentation
         self.replay = replay         # (clause, model) -> dict(confirmed=bool, ...) | None
-        self.kind = kind             # "D" deductive, "E" exhaustive-finite member, "B" bounded stand-in
+        self.kind = kind             # "D" deductive, "E" exhaustive-finite member, "B" bounded stand-in (concrete runs),
+                                     # "S" bounded stand-in run by the engine: all integer VALUES symbolic, but a stated bound on a COUNT
+                                     # (number of blocks, entries ...) -- never counted as proved; meta["bound"] states the bound
         self.func = func             # module:qualname of the function under contract
         self.meta = meta or {}
         self.timeout_ms = timeout_ms
@@ -109,6 +111,20 @@ def _run_job(args):
         out["unsupported"].append("setup: %s" % e)
     except Exception as e:
         out["errors"].append("job crashed: %s: %s\n%s" % (type(e).__name__, e, traceback.format_exc()[-1500:]))
+        # the code under contract (or the harness) raised where the contract expects a normal return: still a checker error as far as
+        # the engine is concerned, but the contract's native replay decides whether a concrete input violates it
+        job = locals().get("job")
+        if job is not None and getattr(job, "replay", None) is not None and job.kind != "B":
+            try:
+                cm = job.setup() if job.setup else _null()
+                with cm:
+                    rep = job.replay("(engine error)", {})
+            except Exception as e2:  # replay harness bug is not a verdict
+                rep = {"confirmed": None, "error": "%s: %s" % (type(e2).__name__, e2)}
+            if rep and rep.get("confirmed") is True:
+                out["obligations"]["NATIVE/contract-holds-on-the-concrete-replay-inputs"] = {
+                    "status": "failed", "paths": 0, "ms": 0, "model": {}, "note": "the run under the engine raised %s; native replay of the contract found a failing input" % type(e).__name__,
+                    "replay": rep, "native": True}
     out["wall_s"] = time.time() - t0
     return out
 
@@ -173,16 +189,19 @@ def run_check(prop, modname, tier="quick", seed=0, procs=None, level="proof", as
         vac["covers"] += len(o.get("covers", []))
         if "bounded" in o:
             bounded.append(dict(o["bounded"], job=o["id"]))
+        elif o["kind"] == "S":
+            bounded.append({"job": o["id"], "cases": o.get("paths", 0), "nontrivial": o.get("completed", 0), "bound": (o.get("meta") or {}).get("bound", "count-bounded symbolic exploration"),
+                            "samples": [], "assumption_hits": []})
         for name, ob in o["obligations"].items():
             oid = o["id"] + "::" + name
-            if o["kind"] == "B":
+            if o["kind"] in ("B", "S"):
                 n_b += 1
             else:
                 n_obl += 1
             max_ms = max(max_ms, ob.get("ms", 0))
             st = ob["status"]
             if st in ("proved", "passed-bounded"):
-                if o["kind"] != "B":
+                if o["kind"] not in ("B", "S"):
                     n_dis += 1
                     by_kind[o["kind"]] = by_kind.get(o["kind"], 0) + 1
                     if o.get("func"):
